@@ -12,7 +12,7 @@ TECHNIQUE = "Hypothesis-generated lattices with constructed edge/ulp/hole/outsid
 RULE = ("one case = a lattice (decimal spacing and anchor, extent 1..12 x 1..12, removed cells, mask flags, permuted cell order, origins "
         "either clean decimals or 'midpoint - dh/2' floats) built through from_origins / constructor with mask / to_dict->from_dict, probed "
         "at every node of the bounding box extended by one cell with (0,+-1,+-2,+4096 ulp) jitter per axis, cell interiors, points in "
-        "holes, points 3x and 1000x slack below edges, far outside; shipped regions (NZ, NZ collection, Italy collection, California "
+        "holes, points 3x and 1000x slack below edges, far outside; a separate drive of fine lattices (0.001 .. 0.0001 deg); shipped regions (NZ, NZ collection, Italy collection, California "
         "collection, global 2/1 deg; thorough: global 0.5, NZ x2): every bounding-box node with 7 jitters. Non-trivial = lattice with "
         ">= 2 cells (its probe set then contains points exactly on an interior cell edge and points that must be rejected); "
         "distinct = canonical JSON of the lattice.")
